@@ -25,13 +25,26 @@ class C40(Prop):
             "claim that nothing else can move. Soak: 8-12 goroutines x 40 random operations (AddReader/AddPublisher/Describe/"
             "Remove*/APIPathsList/APIPathsGet/ReloadPathConfs incl. reloads that close paths, on-demand paths with a 150 ms "
             "timer, dynamic paths that close themselves when idle) and a final close(), half of them with close() while the "
-            "calls are in flight; 16 s watchdog per call (8 s per forced segment). Non-trivial = every case; distinct = distinct descriptions")
+            "calls are in flight; 16 s watchdog per call (8 s per forced segment). Core level (n/4 more cases, 5 families K1-K5 "
+            "on a REAL Core with its real API server, no hook: clients that hold back the last byte of a configuration "
+            "request park 1-3 handlers inside the handler tracker; trigger = an accepted API edit that needs a new API "
+            "server (apiAddress / readTimeout / logLevel / api: no), a rewrite of the configuration file with another "
+            "apiAddress, Core.Close(), a configuration file that does not load, an edit that keeps the API server; the "
+            "parked requests are released one by one in random order; program points of Core.run, of the api.Close "
+            "goroutine and of every handler from goroutine dumps (attributed by receiver pointer), HTTP status of every "
+            "request; 10 s watchdog per segment). Non-trivial = every case; distinct = distinct descriptions")
     trusted_base = ["Coq 8.16.1 kernel + VM (vm_compute for cases and for the _refuted witness)",
                     "in-package driver zz_verif_c40_test.go: hooks on the real goroutines, classification of goroutine "
                     "dumps (runtime.Stack) by frame names of internal/core (pathManager.run, path.run/runInner, removePath, "
                     "setPathReady/NotReady, closePathIfIdle, the caller-side methods) and goroutine wait states",
                     "model Model/C40_Rendezvous.v hand-written from path_manager.go / path.go, tied by the forced-schedule "
-                    "correspondence (program points + enabledness), theorem C40_check_settled_sound for the enabledness test"]
+                    "correspondence (program points + enabledness), theorem C40_check_settled_sound for the enabledness test",
+                    "in-package driver zz_verif_c40core_test.go (slow clients; goroutine dumps classified by the frames "
+                    "Core.run / closeAPI / api.(*API).Close / httpp.(*handlerTracker).close / http.(*Server).Shutdown / "
+                    "httpp.dumpRequest / Core.APIConfig* and the receiver pointers of Core and of the handler tracker)",
+                    "model Model/C40_CoreLoop.v hand-written from core.go (run, reloadConf, closeResources, closeAPI, "
+                    "APIConfig*), api.Close, httpp.Server.Close / handlerTracker, confwatcher; tied by the Core-level "
+                    "forced schedules, theorem C40_core_check_settled_sound for the enabledness test"]
     assumptions = ["NOT PROVED: data-race freedom (Go memory model) — outside what a Gallina model can express; the thorough "
                    "tier runs the soak under `go test -race` as supporting TESTING evidence only",
                    "Go channel semantics: unbuffered send/receive is a rendezvous; a select with a ready branch proceeds; "
@@ -41,9 +54,12 @@ class C40(Prop):
                    "staticsources.Handler Start/Stop/Close, authManager.Authenticate",
                    "a handler of the path loop performs at most 3 calls to its parent (setNotAvailable, setAvailable, "
                    "closePathIfIdle) — the bound `max_pm_calls` used by the termination measure",
-                   "not modelled: Core.closeResources vs in-flight API configuration edits (same select{send; ctx.Done()} "
-                   "shape as the modelled callers, but Core.run is not in the model), APIPathsList's loop over paths, "
-                   "the static-source handler's own goroutine, HLS muxers calling back into the path manager"]
+                   "Core level: http.Server.Shutdown returns (it has a 2 s time-out); reading a request body returns (the "
+                   "client sends it or readTimeout expires); createResources / the Close() of the other servers return; "
+                   "requests reach Core.APIConfig* only through the API server (the handler tracker counts them)",
+                   "not modelled: APIPathsList's loop over paths, the static-source handler's own goroutine, HLS muxers "
+                   "calling back into the path manager; the two models are separate (the path manager's shutdown inside "
+                   "Core.closeResources is the close() of the first model)"]
     manifest = dict(
         text="PARTIAL. Deadlock-freedom half: Coq theorems over a transition-system model of the rendezvous protocol between "
              "pathManager.run (incl. doClosePath = pa.close(); pa.wait()), every path loop (any handler = any well-formed "
@@ -55,11 +71,15 @@ class C40(Prop):
              "the all-terminated state and every started call returns; the variant without the <-pa.ctx.Done() escape branches "
              "is refuted with the reachable state 'path manager in pa.wait(), path blocked in setPathReady'. The model is tied "
              "to the code by forcing schedules on the real pathManager and comparing every goroutine's program point and the "
-             "model's enabledness claims.",
+             "model's enabledness claims. Core level (second model): the select loop of Core.run (API configuration requests "
+             "with their request/response rendezvous, confChanged, interrupt, ctx.Done), reloadConf / closeResources closing "
+             "the API server, api.Close (Shutdown, then the handler tracker's wait without time-out), any number of API "
+             "handlers and the watcher: progress, finiteness of every schedule, every request answered or refused, shutdown "
+             "terminates; the code before fix 90f555e is refuted (Core.run inside api.Close() waiting for a handler that waits "
+             "for Core.run: a genuine deadlock, reproduced on the real code and fixed in /repo).",
         note="Data-race freedom is NOT decided by proof (it is a property of the Go memory model that an executable Gallina "
              "model cannot exhibit); a `go test -race` soak of the driver runs in the thorough tier as supporting testing "
-             "evidence only. External calls made from the loops are assumed to return. Core.closeResources vs API edits is not "
-             "modelled.",
+             "evidence only. External calls made from the loops are assumed to return.",
         technique="Coq proof (labelled transition system with program counters, reachable-state invariant by induction over "
                   "steps, case analysis for progress, nat-valued measure) + forced-schedule correspondence via vm_compute + "
                   "watchdog soak")
